@@ -522,7 +522,7 @@ def run(rep: Report, ctx: Any) -> str:
 
     rep.rule("R15.8", "a composed schema reaches the composition whole: no validator of Schema takes `allOf` away from the keywords written "
                       "next to it (properties, required) on a path on which the schema has a `type` - such a schema is made nullable through "
-                      "its type; frozen exception: a schema without `type` (see _ALLOF_MOVED_FOR)")
+                      "its type - nor, for a schema without `type`, on any path at all")
 
     mp = ix.func("merge_properties.merge_properties")
     _merge_rules(rep, ctx, mp)
@@ -1572,11 +1572,6 @@ def _imports_of_every_property(rep: Report, ctx: Any, cfgs: dict[str, CFG]) -> N
 # R15.8: the schema layer does not take a composition apart
 # ======================================================================================================================
 
-# confirmed exceptions, frozen (shape of the schema -> why allOf may be moved away from its sibling keywords there), one reason per line
-_ALLOF_MOVED_FOR = {
-    "no type": "upstream reads `nullable` + allOf without a `type` as oneOf[null, Schema(allOf=...)]: `properties` / `required` written next "
-               "to the allOf stay on the outer (now union) schema and are lost - a defect of /repo itself, reported, not decided here",
-}
 _TYPED_SHAPES = {"type is a string": ("str", "list"), "type is a list": ("list", "str")}
 
 
@@ -1642,7 +1637,18 @@ def _composed_schema_stays_whole(rep: Report, ctx: Any, cfgs: dict[str, CFG]) ->
         rep.check(not taken, "R15.8", f"Schema.{m.name}::allOf-stays-with-typed-schema",
                   "a schema that has a `type` loses its allOf to a nested schema: the properties and `required` written next to the allOf are "
                   "no longer part of the composition (they are silently dropped from the composed model)", where(m, moves[0]),
-                  lhs=taken, rhs=f"allOf is moved only for: {sorted(_ALLOF_MOVED_FOR)}")
+                  lhs=taken, rhs="allOf is never moved away from its sibling keywords")
+        # the same question for a schema without `type`: the keywords written next to the allOf do not travel with it either
+        env = {f"isinstance({me}.type, str)": False, f"isinstance({me}.type, list)": False, f"{me}.type is None": True,
+               f"{me}.type == None": True, f"{me}.type": False}
+        for r in type_tests:
+            env[norm(r)] = False
+        can = _reachable_under(cfg, env, store)
+        untyped = [f"no type: {norm(st)[:50]}" for st in moves if st in can]
+        rep.check(not untyped, "R15.8", f"Schema.{m.name}::allOf-stays-with-untyped-schema",
+                  "a schema without `type` loses its allOf to a nested schema while `properties` / `required` written next to the allOf "
+                  "stay behind on the outer schema: they are silently dropped from the composed model", where(m, moves[0]),
+                  lhs=untyped, rhs="allOf is never moved away from its sibling keywords")
     rep.floor("allOf_moved_by_schema_validators", n_moves, 1)
 
 
